@@ -136,14 +136,40 @@ REFS["aggregate_none_fn"] = (lambda S: _keyless(S, "fn"), "seq")
 REFS["aggregate_multi_none"] = (lambda S: _keyless(S, "multi"), "seq")
 
 
-def run_entry(e, S, tmp):
+class _PassDiffers(Exception):
+    pass
+
+
+def run_entry(e, S, tmp, mode="fresh", mask=()):
+    """mode 'peek': only the header is read first (what header(), look() or a natural join's key detection do), then the
+    view is iterated; mode 'emptied': the view is built and iterated while its sources still have rows, then the sources
+    in `mask` lose all their data rows (in place) and the SAME view is iterated.  Every mode ends with two full passes that
+    must agree."""
     if e.has("file"):
         res = e.build(S, e.prepare(S, tmp))
     else:
         res = e.build(S)
     if e.has("nonview"):
         return e.norm(res)
-    return [tuple(r) for r in res]
+    if mode == "peek":
+        it = iter(res)
+        next(it, None)
+        del it
+    elif mode == "emptied":
+        for _ in res:
+            pass
+        for i in mask:
+            del S[i][1:]
+    a = [tuple(r) for r in res]
+    b = [tuple(r) for r in res]
+    if a != b and not e.has("random"):
+        raise _PassDiffers("a second pass gave %r, the first %r" % (b, a))
+    return a
+
+
+def _emptied_ok(e):
+    from pv import reuse
+    return reuse.eligible(e) and not e.has("sorted") and not e.has("hash") and not e.has("nonview")
 
 
 def enum_cases(tier):
@@ -157,6 +183,10 @@ def enum_cases(tier):
                     fillers = [0] if len(mask) == e.n else range(len(FILL))
                     for fi in fillers:
                         yield {"entry": name, "shape": list(shape), "empty": list(mask), "filler": fi}
+                        if not e.has("nonview") and fi == 0:
+                            yield {"entry": name, "shape": list(shape), "empty": list(mask), "filler": fi, "mode": "peek"}
+                            if _emptied_ok(e):
+                                yield {"entry": name, "shape": list(shape), "empty": list(mask), "filler": fi, "mode": "emptied"}
 
 
 def check(case, ctx):
@@ -164,12 +194,17 @@ def check(case, ctx):
     shape = tuple(case["shape"])
     mask = set(case["empty"])
     full = [mk(shape, FILL[(case["filler"] + i) % len(FILL)], e.cells) for i in range(e.n)]
+    mode = case.get("mode", "fresh")
     S = [mk(shape, []) if i in mask else full[i] for i in range(e.n)]
     snap = codec.snapshot(S)
+    if mode == "emptied":
+        S = codec.snapshot(full)   # the masked sources are emptied only after the view has been used once
     ctx.nontrivial(True)
-    ctx.label("entry:" + e.name, "all-empty" if len(mask) == e.n else "some-empty")
+    ctx.label("entry:" + e.name, "all-empty" if len(mask) == e.n else "some-empty", "mode:" + mode)
     try:
-        got = run_entry(e, S, ctx.tmpdir() if e.has("file") else None)
+        got = run_entry(e, S, ctx.tmpdir() if e.has("file") else None, mode, sorted(mask))
+    except _PassDiffers as ex:
+        return Fail(e.name + "/second-pass-differs", str(ex))
     except Exception as ex:
         return exc_fail(e.name, ex)
     if not codec.strict_eq(snap, S):
